@@ -137,6 +137,7 @@ type c08Case struct {
 	Data  drv.Hex `json:"data"`
 	Times int     `json:"times,omitempty"` // deliver this many times (the ICMPv6 handler processes one RA in four)
 	Dec   string  `json:"decoder,omitempty"`
+	Log   int     `json:"log,omitempty"` // level of the package loggers while the frame is processed: 0 info, 1 error, 2 debug
 }
 
 func c08Run(tb drv.TB, rec *drv.Rec, sub string, c c08Case) {
@@ -144,6 +145,9 @@ func c08Run(tb drv.TB, rec *drv.Rec, sub string, c c08Case) {
 	drv.Begin("C08", sub, 'J', mustJSON(c), 20*time.Second)
 	defer drv.End()
 	e := c08Get()
+	if c.Log != 0 {
+		defer setLogLevel(c.Log)()
+	}
 	times := c.Times
 	if times <= 0 {
 		times = 1
@@ -339,7 +343,7 @@ func TestC08(t *testing.T) {
 			b, mut = gen.Mutate(t, b)
 		}
 		rec.Class(fmt.Sprintf("gen %s mutated=%v", class, mut != ""))
-		return c08Case{Data: b, Times: times}
+		return c08Case{Data: b, Times: times, Log: rapid.SampledFrom([]int{0, 0, 0, 1, 2, 2}).Draw(t, "log")}
 	}, func(tb drv.TB, c c08Case) { c08Run(tb, rec, "frames", c) })
 
 	// truncation at every offset of a drawn message
